@@ -132,6 +132,9 @@ class AsynConn:
                     raise TimeoutError(f'timeout in readline ({timeout:g} sec)')
                 return None
             self._rxbuffer += data
+            if timeout and time.time() >= end and self.end_of_line not in self._rxbuffer:
+                # data keeps trickling in without ever completing a line
+                raise TimeoutError(f'timeout in readline ({timeout:g} sec)')
 
     def readbytes(self, nbytes, timeout=None):
         """read a fixed number of bytes
@@ -151,6 +154,9 @@ class AsynConn:
                     raise TimeoutError(f'timeout in readbytes ({timeout:g} sec)')
                 return None
             self._rxbuffer += data
+            if timeout and time.time() >= end and len(self._rxbuffer) < nbytes:
+                # data keeps trickling in without ever completing the reply
+                raise TimeoutError(f'timeout in readbytes ({timeout:g} sec)')
         line = self._rxbuffer[:nbytes]
         self._rxbuffer = self._rxbuffer[nbytes:]
         return line
